@@ -386,6 +386,62 @@ def _g_body(kind, a):
     return True
 
 
+# ------------------------------------------------------------------ C11.h two-step histories from the first call of an interpreter
+PRE_KINDS = ('valid(exclude=[N])', 'valid(include=[N])', 'match(N, exclude=[N])', 'valid(include=[P], exclude=[N])', 'nodes(N) then the result emptied',
+             'valid(exclude=(N,))', 'children(N) then the result emptied', 'leaves(N) then the result emptied')
+H_CATS = (3, 5, 6, 14, 0, 23, 31, 8, 7, 10)    # + DECORATION, DURATION
+
+
+def ob_h(pre: int, a: int) -> bool:
+    """What the FIRST call of an interpreter was (a selection that excludes / includes the category, a result set the caller
+    then mutates) must not change any later tree query about that category, its parent or its children."""
+    assume(0 <= pre < len(PRE_KINDS) and 0 <= a < len(H_CATS))
+    return _h_body(choose(pre, len(PRE_KINDS)), H_CATS[choose(a, len(H_CATS))])
+
+
+@native
+def _h_body(pre, a):
+    import json
+    import os
+    import subprocess
+    import sys
+    c = CATS[a]
+    parent = DOC.parent.get(c.name) or c.name
+    first = {
+        0: 'T.valid(exclude=[T[N]])', 1: 'T.valid(include=[T[N]])', 2: 'T.match(T[N], exclude=[T[N]])', 3: 'T.valid(include=[T[P]], exclude=[T[N]])',
+        4: 'T.nodes(T[N]).clear()', 5: 'T.valid(exclude=(T[N],))', 6: 'T.children(T[N]).clear()', 7: 'T.leaves(T[N]).clear()',
+    }[pre]
+    prog = f'''import json
+from kernpy.core.tokens import TokenCategory as T
+N = {c.name!r}
+P = {parent!r}
+{first}
+out = {{}}
+for X in sorted({{N, P}} | {{x.name for x in T.children(T[N])}}):
+    out[X] = dict(
+        leaves=sorted(x.name for x in T.leaves(T[X])), children=sorted(x.name for x in T.children(T[X])), nodes=sorted(x.name for x in T.nodes(T[X])),
+        is_child=[x.name for x in T if T.is_child(child=x, parent=T[X])], valid_in=sorted(x.name for x in T.valid(include=[T[X]])),
+        valid_ex=sorted(x.name for x in T.valid(exclude=[T[X]])), match=[x.name for x in T if T.match(x, include=[T[X]])],
+        match_ex=[x.name for x in T if T.match(x, exclude=[T[X]])])
+print(json.dumps(out))
+'''
+    env = dict(os.environ)
+    root = os.path.dirname(os.path.dirname(os.path.abspath(kp.__file__)))
+    env['PYTHONPATH'] = root + (os.pathsep + env['PYTHONPATH'] if env.get('PYTHONPATH') else '')
+    pr = subprocess.run([sys.executable, '-c', prog], env=env, capture_output=True, text=True, timeout=300)
+    check(pr.returncode == 0, f'queries after {PRE_KINDS[pre]} with N={c.name} failed: {pr.stderr[-300:]}')
+    got = json.loads(pr.stdout.strip().split('\n')[-1])
+    for X, g in got.items():
+        exp = dict(
+            leaves=sorted(DOC.leaves(X)), children=sorted(DOC.kids[X]), nodes=sorted(DOC.descendants(X)),
+            is_child=[n for n in NAMES if X in DOC.ancestors_or_self(n)], valid_in=sorted(DOC.closure(X)),
+            valid_ex=sorted(set(NAMES) - set(DOC.closure(X))), match=[n for n in NAMES if set(DOC.closure(n)) & set(DOC.closure(X))],
+            match_ex=[n for n in NAMES if set(DOC.closure(n)) - set(DOC.closure(X))])
+        for q in exp:
+            check(g[q] == exp[q], f'after {PRE_KINDS[pre]} (N={c.name}) as the first call of an interpreter, {q}({X}) = {g[q]}, documented tree {exp[q]}')
+    return True
+
+
 # members are concrete once the selector has been consumed by table lookup: the real functions then run untraced
 UNTRACE = [('kernpy.core.tokens', 'TokenCategoryHierarchyMapper.valid'), ('kernpy.core.tokens', 'TokenCategoryHierarchyMapper.match')]
 
@@ -399,6 +455,11 @@ OBLIGATIONS = [
        shard_of=lambda kind, a: kind, shards={'quick': 8, 'thorough': 8}, budget_s={'quick': 150, 'thorough': 600},
        witnesses=[{'kind': 0, 'a': 0}], min_confirmed=60, enumerated='query kind (8), category (8 inner / leaf categories)',
        realized_at=['fresh python interpreter per call (subprocess)'], bounds={'quick': '8 x 8 fresh interpreters', 'thorough': 'same'}),
+    Ob(id='C11.h', fn=ob_h, title='two-step histories: the first call of an interpreter (a selection naming the category, a mutated result set) does not change later queries',
+       shard_of=lambda pre, a: a, shards={'quick': 8, 'thorough': 8}, budget_s={'quick': 150, 'thorough': 600}, native_body=True,
+       witnesses=[{'pre': 0, 'a': 0}], min_confirmed=60, enumerated='first call (8 kinds), category (10)',
+       realized_at=['fresh python interpreter per history (subprocess)'],
+       bounds={'quick': '8 first calls x 10 categories; afterwards 8 query kinds on the category, its parent and its children', 'thorough': 'same'}),
     Ob(id='C11.a', fn=ob_a, title='hierarchy is a forest with each member once and the documented parents',
        budget_s={'quick': 60, 'thorough': 120}, witnesses=[{'a': 0}, {'a': 10}], min_confirmed=N,
        symbolic='category index', bounds={'quick': 'all 37 members', 'thorough': 'all 37 members'}),
